@@ -307,7 +307,9 @@ impl AddressRange {
     }
 
     fn limited_count(self, limit: u16) -> Result<Self, InvalidRange> {
-        if self.count > limit {
+        // the fields are public, so a range may not have been created by try_from
+        let range = Self::try_from(self.start, self.count)?;
+        if range.count > limit {
             return Err(InvalidRange::CountTooLargeForType(self.count, limit));
         }
         Ok(self)
